@@ -23,10 +23,13 @@ Spec == Init /\ [][Next]_vars
 (* functions of the abstract machine (FPEval.CallFn) *)
 MachineFns == {"where", "select", "exists", "all", "empty", "count", "first", "last", "tail", "skip", "take", "not", "iif",
                "allTrue", "anyTrue", "allFalse", "anyFalse", "extension", "children", "exclude", "distinct", "isDistinct"}
+              \cup StrFns \cup MathFns \cup ToFns \cup ConvFns       \* dispatched to FPStrings, FPArith, FPConvert
 EnvM == [forest |-> <<>>, sch |-> <<>>, vars |-> [none |-> <<>>]]
 ArgsM(f) == CASE f \in {"where", "select", "all", "exists"} -> <<[k |-> "lit", items |-> <<B(TRUE)>>]>>
               [] f \in {"skip", "take", "exclude"} -> <<[k |-> "lit", items |-> <<I(1)>>]>>
-              [] f = "extension" -> <<[k |-> "lit", items |-> <<S(<<117>>)>>]>>
+              [] f \in {"extension"} \cup StrFns1 -> <<[k |-> "lit", items |-> <<S(<<117>>)>>]>>
+              [] f = "substring" -> <<[k |-> "lit", items |-> <<I(1)>>]>>
+              [] f = "replace" -> <<[k |-> "lit", items |-> <<S(<<117>>)>>], [k |-> "lit", items |-> <<S(<<118>>)>>]>>
               [] f = "iif" -> <<[k |-> "lit", items |-> <<B(TRUE)>>], [k |-> "lit", items |-> <<I(1)>>]>>
               [] OTHER -> <<>>
 
